@@ -1,12 +1,16 @@
 """
 C19 — Row objects and the DataFrame assertion helpers behave as PySpark's.
 
-proof      : lean/SqlframeModel/Props/C19.lean (two transcriptions Sf / Ps of Row and of the helpers, equivalence theorems)
+proof      : lean/SqlframeModel/Props/C19.lean (two transcriptions Sf / Ps of Row and of the helpers, equivalence theorems;
+             laws: attribute access reaches every non-dunder field, maps compared as mappings, the helper is a pure
+             check over any call sequence, unordered comparison invariant under permutation)
 tie        : (a) Gen/RowCompat.lean regenerated from sqlframe/base/types.py + sqlframe/testing/utils.py AND the installed
-             pyspark sources (decisions + per-method source identity), exercised against the live objects;
-             (b) correspondence: generated Row scripts / row-list pairs / schema pairs run on the REAL sqlframe objects and
-             on the REAL pyspark objects, each compared with its Lean transcription (Driver/C19.lean)
-search     : the same runs compare sqlframe with pyspark directly (the specification is PySpark's behaviour)
+             pyspark sources (decisions + per-method source identity), every definition exercised against the live objects;
+             (b) correspondence: generated Row scripts / row-list pairs / call sequences on shared lists / argument
+             pairs / schema pairs run on the REAL sqlframe objects and on the REAL pyspark objects, each compared with
+             its Lean transcription (Driver/C19.lean)
+search     : the same runs compare sqlframe with pyspark directly (the specification is PySpark's behaviour);
+             observables include the objects handed in, read back after the calls
 """
 from __future__ import annotations
 
@@ -30,7 +34,7 @@ ID = "C19"
 LEVEL = "proof"
 MODULES = ["SqlframeModel.Codec.C19", "SqlframeModel.Props.C19"]
 GEN = ["RowCompat"]
-SOURCES = ["SqlframeModel/Props/C19.lean", "SqlframeModel/Impl/C19Row.lean"]
+SOURCES = ["SqlframeModel/Props/C19.lean", "SqlframeModel/Impl/C19Row.lean", "SqlframeModel/Lemmas/C19Dict.lean", "SqlframeModel/Lemmas/C19Sort.lean"]
 HERE = os.path.dirname(os.path.abspath(__file__))
 SCALE = 10**9
 PYSPARK_DIR = "/venv/lib/python3.12/site-packages/pyspark"
@@ -52,7 +56,7 @@ def impls() -> t.Dict[str, t.Any]:
     if vlib.REPO not in sys.path:
         sys.path.insert(0, vlib.REPO)
     from sqlframe.base import types as sft
-    from sqlframe.base.exceptions import DataFrameDiffError, RowError, SchemaDiffError
+    from sqlframe.base.exceptions import DataFrameDiffError, RowError, SchemaDiffError, SQLFrameException
     from sqlframe.testing import utils as sfu
 
     import pyspark.sql.types as pst
@@ -69,9 +73,14 @@ def impls() -> t.Dict[str, t.Any]:
     psu = importlib.util.module_from_spec(spec)
     sys.modules["_verif_pyspark_testing_utils"] = psu
     spec.loader.exec_module(psu)  # type: ignore
+    # the colour probe of the error MESSAGE spawns a shell (`tput colors`) on every rejected pair; the text of the message
+    # is no observable of the property, so both helpers are told "no colour" once instead
+    for m in (sfu, psu):
+        if hasattr(m, "_terminal_color_support"):
+            m._terminal_color_support = lambda: "false\n"
     _IMPL.update(
-        sf={"Row": sft.Row, "types": sft, "adf": sfu.assertDataFrameEqual, "ase": sfu.assertSchemaEqual, "reject": (DataFrameDiffError, SchemaDiffError), "utils": sfu},
-        ps={"Row": pst.Row, "types": pst, "adf": psu.assertDataFrameEqual, "ase": psu.assertSchemaEqual, "reject": (PySparkAssertionError,), "utils": psu},
+        sf={"Row": sft.Row, "types": sft, "adf": sfu.assertDataFrameEqual, "ase": sfu.assertSchemaEqual, "reject": (DataFrameDiffError, SchemaDiffError), "refuse": (SQLFrameException,), "utils": sfu},
+        ps={"Row": pst.Row, "types": pst, "adf": psu.assertDataFrameEqual, "ase": psu.assertSchemaEqual, "reject": (PySparkAssertionError,), "refuse": (PySparkAssertionError,), "utils": psu},
         errs={RowError: "rowError", PySparkValueError: "psValueError", PySparkTypeError: "psTypeError"},
     )
     return _IMPL
@@ -81,7 +90,7 @@ def err_name(e: BaseException) -> str:
     for cls, nm in impls()["errs"].items():
         if isinstance(e, cls):
             return nm
-    for cls, nm in ((KeyError, "keyError"), (IndexError, "indexError"), (AttributeError, "attributeError"), (TypeError, "typeError"), (RuntimeError, "runtimeError")):
+    for cls, nm in ((KeyError, "keyError"), (IndexError, "indexError"), (AttributeError, "attributeError"), (TypeError, "typeError"), (RuntimeError, "runtimeError"), (ValueError, "valueError")):
         if type(e) is cls:
             return nm
     return "other:" + type(e).__name__
@@ -113,7 +122,10 @@ def to_py(v: t.Any, Row: t.Any) -> t.Any:
         r = v["row"]
         vals = [to_py(x, Row) for x in r["vs"]]
         if r["hf"]:
-            return Row(**{f["str"]: x for f, x in zip(r["fields"], vals)})
+            names = [f["str"] for f in r["fields"]]
+            if len(set(names)) < len(names):
+                return Row(*names)(*vals)  # duplicate field names (as a join gives them) cannot go through **kwargs
+            return Row(**dict(zip(names, vals)))
         return Row(*vals)
     raise ValueError(v)
 
@@ -212,13 +224,31 @@ def apply_op(r: t.Any, op: t.Any, Row: t.Any) -> t.Any:
         return {"val": from_py(r2)}
     if op == "fields":
         return {"val": {"list": [from_py(f) for f in r.__fields__]}}
+    if op == "hash":
+        return {"b": hash(r) == hash(tuple(r))}
+    if op == "asDictDefault":
+        return {"val": from_py(r.asDict())}
     k, a = next(iter(op.items()))
     if k == "getIdx":
         return {"val": from_py(r[a["i"]])}
     if k == "getKey":
         return {"val": from_py(r[to_py(a["k"], Row)])}
     if k == "getAttr":
-        return {"val": from_py(getattr(r, a["name"]))}
+        x = getattr(r, a["name"])
+        return {"callable": True} if callable(x) and not isinstance(x, Row) else {"val": from_py(x)}
+    if k == "getSlice":
+        x = r[a["i"] : a["j"]]
+        return {"tup": [from_py(y) for y in x]} if type(x) is tuple else {"other": "a slice of a Row is a " + type(x).__name__}
+    if k == "ne":
+        return {"b": r != to_py(a["other"], Row)}
+    if k == "le":
+        return {"b": r <= to_py(a["other"], Row)}
+    if k == "delAttr":
+        delattr(r, a["name"])
+        return {"b": True}
+    if k == "setFields":
+        r.__fields__ = list(a["names"])
+        return {"b": True}
     if k == "contains":
         return {"b": to_py(a["v"], Row) in r}
     if k == "asDict":
@@ -245,6 +275,8 @@ def run_script(which: str, c: dict, ops: t.List[t.Any]) -> t.List[t.Any]:
             out.append(apply_op(r, op, Row))
         except Exception as e:  # noqa
             out.append({"err": err_name(e)})
+    # the row after all queries (its values, its nested lists / dicts / Rows, its __fields__): queries change nothing
+    out.append({"val": from_py(r)})
     return out
 
 
@@ -257,10 +289,19 @@ def abs_outs(outs: t.List[t.Any]) -> t.List[t.Any]:
 # ------------------------------------------------------------------------------------------------
 
 NAMES = ["a", "b", "c", "name", "age", "k1", "x_y", "A"]
+# field names of Rows: every shape a column name takes in practice - Spark's own default names (_1, _2, _c0), a lone
+# underscore, leading / trailing / double underscores, dunder-like names, names of tuple / Row methods, a blank inside
+FIELD_NAMES = NAMES + ["_1", "_2", "_c0", "_", "__x", "__x__", "x_", "a_", "count", "index", "a b", "é1"]
+PROBE_NAMES = ["zz", "__x", "age", "_1", "_zz", "__zz", "_", "x__", "count"]
 INTS = [-7, 2, 3, 5, 10]
 FLOATS = [1.5, 2.25, -0.125, 3.0, 1000.5, 0.1]
 STRS = ["a", "b", "zz", "Alice", "", "x y"]
 DECS = ["1.5", "2.25", "2.50", "3"]  # exactly representable in binary: Decimal == float is then decided by the value
+
+
+def pick_names(rng: random.Random, n: int) -> t.List[str]:
+    """n distinct field names: plain ones, or drawn from the whole alphabet of shapes"""
+    return rng.sample(NAMES if rng.random() < 0.4 else FIELD_NAMES, n)
 
 
 def gen_scalar(rng: random.Random, allow_dec: bool) -> t.Any:
@@ -290,7 +331,7 @@ def gen_value(rng: random.Random, depth: int, allow_dec: bool, top_dec: bool = F
         ks = rng.sample(NAMES, rng.randint(0, 3))
         return {"dict": {"ks": ks, "vs": [gen_value(rng, depth - 1, allow_dec, top_dec=True) for _ in ks]}}
     # a nested Row built with keyword arguments (its own fields are never Decimal: sqlframe would convert them)
-    ks = rng.sample(NAMES, rng.randint(1, 3))
+    ks = pick_names(rng, rng.randint(1, 3))
     return {"row": {"hf": True, "fields": [{"str": k} for k in ks], "vs": [gen_value(rng, depth - 1, allow_dec, top_dec=False) for _ in ks]}}
 
 
@@ -299,20 +340,21 @@ def gen_ctor(rng: random.Random, allow_dec: bool) -> dict:
     n = rng.randint(0, 4)
     vals = [gen_value(rng, 2, allow_dec, top_dec=True) for _ in range(n)]
     if r < 0.4:
-        names = rng.sample(NAMES, n)
+        names = pick_names(rng, n)
         return {"kwargs": {"names": names, "vals": vals}}
     if r < 0.55:
         return {"positional": {"vals": vals}}
     if r < 0.6:
-        names = rng.sample(NAMES, max(1, n))
+        names = pick_names(rng, max(1, n))
         return {"both": {"vals": vals or [{"int": 2}], "names": names, "kvals": [gen_value(rng, 1, allow_dec) for _ in names]}}
     if r < 0.93:
         # Row class factory: duplicate field names allowed; fewer / equal / more values than fields
-        names = [rng.choice(NAMES[:4]) for _ in range(rng.randint(0, 4))]
+        pool = NAMES[:4] if rng.random() < 0.4 else rng.sample(FIELD_NAMES, 4)
+        names = [rng.choice(pool) for _ in range(rng.randint(0, 4))]
         k = max(0, len(names) + rng.choice([0, 0, 0, -1, 1]))
         vals = [gen_value(rng, 2, allow_dec, top_dec=True) for _ in range(k)]
         return {"factory": {"names": names, "vals": vals}}
-    names = rng.sample(NAMES, rng.randint(1, 3))
+    names = pick_names(rng, rng.randint(1, 3))
     v1 = [{"str": rng.choice(NAMES)} for _ in names]
     k = max(0, len(names) + rng.choice([0, -1, 1]))
     return {"recall": {"names": names, "vals": v1, "vals2": [gen_value(rng, 1, allow_dec, top_dec=True) for _ in range(k)]}}
@@ -331,37 +373,61 @@ def ctor_vals(c: dict) -> t.List[t.Any]:
 
 
 def gen_ops(rng: random.Random, c: dict, allow_dec: bool) -> t.List[t.Any]:
-    names = ctor_names(c) + ["zz", "__x", "age"]
+    names = ctor_names(c) + PROBE_NAMES
+    own = ctor_names(c) or PROBE_NAMES
     vals = ctor_vals(c)
     n = len(vals)
+
+    def nm() -> str:
+        # a field of the row half of the time (so that hits are as frequent as misses), any probe name otherwise
+        r0 = rng.random()
+        if r0 < 0.08:
+            return rng.choice(own).swapcase()  # the same name in the other case is another name
+        return rng.choice(own) if r0 < 0.55 else rng.choice(names)
+
     ops: t.List[t.Any] = []
     for _ in range(rng.randint(3, 8)):
         r = rng.random()
-        if r < 0.12:
+        if r < 0.09:
             ops.append({"getIdx": {"i": rng.randint(-n - 1, n + 1)}})
-        elif r < 0.26:
-            ops.append({"getKey": {"k": {"str": rng.choice(names)}}})
-        elif r < 0.4:
-            ops.append({"getAttr": {"name": rng.choice(names)}})
-        elif r < 0.52:
-            item = {"str": rng.choice(names)} if rng.random() < 0.6 else (rng.choice(vals) if vals and rng.random() < 0.7 else gen_scalar(rng, False))
+        elif r < 0.13:
+            ops.append({"getSlice": {"i": rng.randint(-n - 1, n + 1), "j": rng.randint(-n - 1, n + 2)}})
+        elif r < 0.25:
+            ops.append({"getKey": {"k": {"str": nm()}}})
+        elif r < 0.41:
+            ops.append({"getAttr": {"name": nm()}})
+        elif r < 0.51:
+            item = {"str": nm()} if rng.random() < 0.6 else (rng.choice(vals) if vals and rng.random() < 0.7 else gen_scalar(rng, False))
             ops.append({"contains": {"v": item}})
-        elif r < 0.64:
+        elif r < 0.60:
             ops.append({"asDict": {"recursive": rng.random() < 0.6}})
-        elif r < 0.7:
+        elif r < 0.63:
+            ops.append("asDictDefault")
+        elif r < 0.67:
             ops.append("len")
-        elif r < 0.8:
+        elif r < 0.75:
             other = mutate_row_value(rng, c, allow_dec)
-            ops.append({"eq": {"other": other}})
-        elif r < 0.86:
+            ops.append({rng.choice(["eq", "eq", "ne"]): {"other": other}})
+        elif r < 0.81:
             other = mutate_row_value(rng, c, False)
-            ops.append({"lt": {"other": other}})
-        elif r < 0.92:
+            ops.append({rng.choice(["lt", "le"]): {"other": other}})
+        elif r < 0.86:
             ops.append("repr")
+        elif r < 0.90:
+            ops.append({"setAttr": {"name": rng.choice(["a", "zz", "x"]) if rng.random() < 0.4 else nm()}})
+        elif r < 0.915:
+            ops.append({"delAttr": {"name": nm()}})
+        elif r < 0.93:
+            # the one assignment a Row allows; as many names as values, or one fewer / more.  Not on a row built
+            # positionally from Decimals (H_fields_after_decimal: the documented conversion would happen late)
+            if not (next(iter(c)) in ("positional", "both") and any(isinstance(v, dict) and "dec" in v for v in c[next(iter(c))]["vals"])):
+                k = max(0, n + rng.choice([0, 0, -1, 1]))
+                pool = rng.sample(FIELD_NAMES, min(len(FIELD_NAMES), k + 1))
+                ops.append({"setFields": {"names": [rng.choice(pool) for _ in range(k)]}})
         elif r < 0.95:
-            ops.append({"setAttr": {"name": rng.choice(["a", "zz", "x"])}})
-        elif r < 0.98:
             ops.append("pickle")
+        elif r < 0.98:
+            ops.append("hash")
         else:
             ops.append("fields")
     return ops
@@ -388,7 +454,7 @@ def mutate_row_value(rng: random.Random, c: dict, allow_dec: bool) -> t.Any:
 
 def gen_rows(rng: random.Random, allow_dec: bool) -> t.List[t.Any]:
     ncols = rng.randint(1, 3)
-    names = rng.sample(NAMES, ncols)
+    names = pick_names(rng, ncols)
     kinds = [rng.choice(["int", "str", "flt", "flt", "list", "row", "dict", "mixed"]) for _ in names]
 
     def cell(kind: str) -> t.Any:
@@ -406,7 +472,7 @@ def gen_rows(rng: random.Random, allow_dec: bool) -> t.List[t.Any]:
             ks = rng.sample(NAMES, rng.randint(0, 2))
             return {"dict": {"ks": ks, "vs": [flt(rng.choice(FLOATS)) for _ in ks]}}
         if kind == "row":
-            ks = rng.sample(NAMES, 2)
+            ks = pick_names(rng, 2)
             return {"row": {"hf": True, "fields": [{"str": k} for k in ks], "vs": [flt(rng.choice(FLOATS)), {"int": rng.choice(INTS)}]}}
         return gen_value(rng, 1, False)
 
@@ -420,7 +486,8 @@ def gen_rows(rng: random.Random, allow_dec: bool) -> t.List[t.Any]:
 
 def perturb_float(v: t.Any, delta: float) -> t.Any:
     x = v["flt"]["num"] / SCALE
-    return flt(x + delta)
+    # kept on the 10^-9 grid, so that the value the implementations see is exactly the value the model is told
+    return flt(round((x + delta) * SCALE) / SCALE)
 
 
 def float_paths(v: t.Any, path: t.Tuple = ()) -> t.List[t.Tuple]:
@@ -588,13 +655,16 @@ def run_assert(which: str, actual: t.List[t.Any], expected: t.List[t.Any], opts:
     I = impls()[which]
     a = [to_py(r, I["Row"]) for r in actual]
     e = [to_py(r, I["Row"]) for r in expected]
+    before = [snapshot(a), snapshot(e)]
     try:
         I["adf"](a, e, **opts)
-        return "accept"
+        v = "accept"
     except I["reject"]:
-        return "reject"
+        v = "reject"
     except Exception as ex:  # noqa
-        return "error:" + type(ex).__name__
+        v = "error:" + type(ex).__name__
+    # the caller's lists (order, rows, nested values) are as they were
+    return v if [snapshot(a), snapshot(e)] == before else v + "+arguments-changed"
 
 
 def close_table(actual: t.List[t.Any], expected: t.List[t.Any], opts: dict, defaults: dict) -> t.List[t.List[t.Any]]:
@@ -610,15 +680,310 @@ def close_table(actual: t.List[t.Any], expected: t.List[t.Any], opts: dict, defa
     return tbl
 
 
+
+# ---- every single-site structural edit of a nested value (bounded-exhaustive) ----------------------
+#
+# compare_vals walks lists, Rows and maps; each container kind has its own notion of "the same" (a list: same length,
+# position by position; a Row: position by position up to the shorter one, names ignored; a map: same key set, key by
+# key, insertion order irrelevant; floats within the tolerance of the EXPECTED value; everything else ==).  The family
+# below takes rows with every kind nested in every other and applies, at EVERY node, every edit of that node's kind.
+
+
+def node_paths(v: t.Any, path: t.Tuple = ()) -> t.List[t.Tuple]:
+    out = [path]
+    if isinstance(v, dict):
+        if "list" in v:
+            for i, x in enumerate(v["list"]):
+                out += node_paths(x, path + (("list", i),))
+        elif "dict" in v:
+            for i, x in enumerate(v["dict"]["vs"]):
+                out += node_paths(x, path + (("dict", i),))
+        elif "row" in v:
+            for i, x in enumerate(v["row"]["vs"]):
+                out += node_paths(x, path + (("row", i),))
+    return out
+
+
+def node_kind(v: t.Any) -> str:
+    return "none" if v is None else next(iter(v))
+
+
+def edits_of(v: t.Any) -> t.List[t.Tuple[str, t.Any]]:
+    """(edit name, edited node) for every edit applicable to this node"""
+    k = node_kind(v)
+    out: t.List[t.Tuple[str, t.Any]] = []
+    if k == "dict":
+        ks, vs = v["dict"]["ks"], v["dict"]["vs"]
+        n = len(ks)
+        if n >= 2:
+            out.append(("dict_reversed_insertion", {"dict": {"ks": ks[::-1], "vs": vs[::-1]}}))
+            out.append(("dict_values_swapped", {"dict": {"ks": ks, "vs": [vs[1], vs[0]] + vs[2:]}}))
+            out.append(("dict_values_swapped_reversed", {"dict": {"ks": ks[::-1], "vs": ([vs[1], vs[0]] + vs[2:])[::-1]}}))
+            out.append(("dict_keys_swapped", {"dict": {"ks": [ks[1], ks[0]] + ks[2:], "vs": vs}}))
+        if n >= 3:
+            out.append(("dict_rotated_insertion", {"dict": {"ks": ks[1:] + ks[:1], "vs": vs[1:] + vs[:1]}}))
+        if n >= 1:
+            out.append(("dict_drop_key", {"dict": {"ks": ks[:-1], "vs": vs[:-1]}}))
+            out.append(("dict_rename_key", {"dict": {"ks": ks[:-1] + [ks[-1] + "_"], "vs": vs}}))
+            out.append(("dict_drop_first_key", {"dict": {"ks": ks[1:], "vs": vs[1:]}}))
+        out.append(("dict_add_key", {"dict": {"ks": ks + ["zq"], "vs": vs + [{"int": 2}]}}))
+        out.append(("dict_to_list", {"list": list(vs)}))
+    elif k == "list":
+        xs = v["list"]
+        if len(xs) >= 2 and xs != xs[::-1]:
+            out.append(("list_reversed", {"list": xs[::-1]}))
+        if len(xs) >= 1:
+            out.append(("list_drop_last", {"list": xs[:-1]}))
+            out.append(("list_drop_first", {"list": xs[1:]}))
+            out.append(("list_dup_last", {"list": xs + [copy.deepcopy(xs[-1])]}))
+        out.append(("list_append", {"list": xs + [{"int": 2}]}))
+        out.append(("list_to_row", {"row": {"hf": False, "fields": [], "vs": list(xs)}}))
+    elif k == "row":
+        r = v["row"]
+        fs, vs = r["fields"], r["vs"]
+        if r["hf"] and len(vs) >= 2:
+            out.append(("row_names_reversed", {"row": {"hf": True, "fields": fs[::-1], "vs": vs}}))
+            if vs != vs[::-1]:
+                out.append(("row_values_reversed", {"row": {"hf": True, "fields": fs, "vs": vs[::-1]}}))
+            out.append(("row_fields_reversed", {"row": {"hf": True, "fields": fs[::-1], "vs": vs[::-1]}}))
+            out.append(("row_drop_last_field", {"row": {"hf": True, "fields": fs[:-1], "vs": vs[:-1]}}))
+            out.append(("row_drop_first_field", {"row": {"hf": True, "fields": fs[1:], "vs": vs[1:]}}))
+        if r["hf"]:
+            out.append(("row_add_field", {"row": {"hf": True, "fields": fs + [{"str": "zq"}], "vs": vs + [{"int": 2}]}}))
+            out.append(("row_rename_field", {"row": {"hf": True, "fields": [{"str": fs[0]["str"] + "_"}] + fs[1:], "vs": vs}}))
+            out.append(("row_without_names", {"row": {"hf": False, "fields": [], "vs": vs}}))
+        out.append(("row_to_list", {"list": list(vs)}))
+    elif k == "flt":
+        x = v["flt"]["num"] / SCALE
+        out.append(("float_inside_tol", perturb_float(v, 1e-7 * max(abs(x), 1e-2))))
+        out.append(("float_outside_tol", perturb_float(v, 1e-3 * max(abs(x), 1.0))))
+        out.append(("float_negated", flt(-x)))
+        if x == round(x):
+            out.append(("float_to_int", {"int": round(x)}))
+        out.append(("float_to_none", None))
+        out.append(("float_to_str", {"str": repr(x)}))
+    elif k == "int":
+        i = v["int"]
+        out.append(("int_to_float", flt(float(i))))
+        out.append(("int_to_near_float", perturb_float(flt(float(i)), 1e-7 * max(abs(i), 1))))
+        out.append(("int_plus_one", {"int": i + 1}))
+        out.append(("int_to_none", None))
+        out.append(("int_to_str", {"str": str(i)}))
+    elif k == "str":
+        out.append(("str_other", {"str": v["str"] + "x"}))
+        out.append(("str_case", {"str": v["str"].swapcase()}))
+        out.append(("str_to_none", None))
+    elif k == "none":
+        out.append(("none_to_int", {"int": 0}))
+        out.append(("none_to_str", {"str": "None"}))
+        out.append(("none_to_list", {"list": []}))
+    return out
+
+
+def rich_rows(rng: random.Random) -> t.List[t.Any]:
+    """rows in which every container kind occurs inside every other, with leaves of every scalar kind"""
+    f = lambda: flt(rng.choice(FLOATS))  # noqa: E731
+    i = lambda: {"int": rng.choice(INTS)}  # noqa: E731
+    st = lambda: {"str": rng.choice(STRS)}  # noqa: E731
+    k3 = rng.sample(NAMES, 3)
+    k2 = rng.sample(NAMES, 2)
+
+    def two(a: t.Any, b: t.Any) -> t.List[t.Any]:
+        return [a, b] if a != b else [a, flt(7.5)]
+
+    m_flat = {"dict": {"ks": k3, "vs": two(f(), f()) + [i()]}}
+    m_nested = {"dict": {"ks": k2, "vs": [{"list": two(f(), i())}, {"row": {"hf": True, "fields": [{"str": "u"}, {"str": "w"}], "vs": two(f(), st())}}]}}
+    m_in_m = {"dict": {"ks": k2[::-1], "vs": [{"dict": {"ks": ["p", "q"], "vs": two(f(), f())}}, None]}}
+    r1 = {"row": {"hf": True, "fields": [{"str": n} for n in ("k", "f", "m", "l")], "vs": [st(), f(), m_flat, {"list": [f(), m_nested, i()]}]}}
+    r2 = {
+        "row": {
+            "hf": True,
+            "fields": [{"str": n} for n in ("_1", "s", "m")],
+            "vs": [i(), {"row": {"hf": True, "fields": [{"str": "x"}, {"str": "y"}, {"str": "z"}], "vs": [f(), m_in_m, {"list": two(st(), st())}]}}, {"dict": {"ks": ["only"], "vs": [f()]}}],
+        }
+    }
+    r3 = {"row": {"hf": True, "fields": [{"str": "id"}, {"str": "xs"}], "vs": [i(), {"list": [{"row": {"hf": True, "fields": [{"str": "m"}], "vs": [{"dict": {"ks": ["a", "b"], "vs": two(f(), f())}}]}}]}]}}
+    return [r1, r2, r3]
+
+
+EDIT_OPTS = [{}, {"checkRowOrder": True}, {"rtol": 0.0, "atol": 0.0}]
+
+
+def edit_cases(rng: random.Random, thorough: bool) -> t.List[dict]:
+    out: t.List[dict] = []
+    filler = {"row": {"hf": True, "fields": [{"str": "k"}], "vs": [{"str": "zz"}]}}
+    for base in rich_rows(rng) * (3 if thorough else 1):
+        for path in node_paths(base):
+            if not path:
+                continue  # the row itself: the near-miss variants of the random stream edit whole rows
+            node = _get_path(base, path)
+            eds = edits_of(node)
+            if node_kind(node) == "dict" and len(node["dict"]["ks"]) >= 2:
+                # a reordered map whose values also moved within / outside the tolerance
+                rev = {"dict": {"ks": node["dict"]["ks"][::-1], "vs": node["dict"]["vs"][::-1]}}
+                for fp in float_paths(rev)[:2]:
+                    eds.append(("dict_reversed_and_inside_tol", set_path(rev, fp, lambda v: perturb_float(v, 1e-7 * max(abs(v["flt"]["num"] / SCALE), 1e-3)))))
+                    eds.append(("dict_reversed_and_outside_tol", set_path(rev, fp, lambda v: perturb_float(v, 1e-3 * max(abs(v["flt"]["num"] / SCALE), 1.0)))))
+            for name, new in eds:
+                edited = set_path(base, path, lambda _v, new=new: copy.deepcopy(new))
+                opts = EDIT_OPTS[len(out) % len(EDIT_OPTS)] if not thorough else rng.choice(EDIT_OPTS + OPTIONS)
+                a, e = [base], [edited]
+                r = rng.random()
+                if r < 0.3:
+                    a, e = e, a  # the edit on the actual side
+                elif r < 0.5:
+                    a, e = [filler, base], [edited, filler]  # more rows, other order
+                out.append({"kind": "assert", "actual": a, "expected": e, "opts": dict(opts), "variant": "edit:" + name, "origin": "edits"})
+    return out
+
+
+# ---- several calls on the same list objects ----------------------------------------------------------
+
+
+def seq_cases(rng: random.Random, thorough: bool) -> t.List[dict]:
+    """The helper is a check, not a transformation: a test may call it several times on the same lists (first the
+    content, then the order; with other tolerances; with the roles swapped).  Each case builds two lists ONCE per
+    implementation and makes 2-4 calls on those very objects; the verdict of every call and the content of both lists
+    after every call are compared with PySpark's."""
+    out: t.List[dict] = []
+    shapes = ["reversed", "rotated", "same", "perturbed", "shorter", "nested_lists"]
+    patterns = [
+        [({}, "ae"), ({"checkRowOrder": True}, "ae")],
+        [({}, "ea"), ({"checkRowOrder": True}, "ae")],
+        [({"checkRowOrder": True}, "ae"), ({}, "ae"), ({"checkRowOrder": True}, "ae")],
+        [({}, "aa"), ({"checkRowOrder": True}, "ae")],
+        [({}, "ee"), ({"checkRowOrder": True}, "ea")],
+        [({"rtol": 0.5}, "ae"), ({"rtol": 0.0, "atol": 0.0}, "ae"), ({"checkRowOrder": True, "rtol": 0.5}, "ea")],
+        [({"checkRowOrder": False}, "ae"), ({"checkRowOrder": False}, "ea"), ({"checkRowOrder": True}, "aa"), ({"checkRowOrder": True}, "ae")],
+    ]
+    reps = 4 if thorough else 1
+    for _ in range(reps):
+        for shape in shapes:
+            for pat in patterns:
+                rows = []
+                while len(rows) < 3:
+                    rows = [r for r in gen_rows(rng, False) if r is not None]
+                    # distinct sort keys, and not already in sorted order, so that a sort is visible
+                    rows = list({json.dumps(r, sort_keys=True): r for r in rows}.values())
+                a = copy.deepcopy(rows)
+                if shape == "reversed":
+                    e = copy.deepcopy(rows[::-1])
+                elif shape == "rotated":
+                    e = copy.deepcopy(rows[1:] + rows[:1])
+                elif shape == "same":
+                    e = copy.deepcopy(rows)
+                elif shape == "perturbed":
+                    e = variant(rng, rows[::-1], "inside_tol", False)
+                elif shape == "shorter":
+                    e = copy.deepcopy(rows[:-1][::-1])
+                else:
+                    # rows holding lists / maps in a non-sorted order: the helper must not normalise them in place either
+                    a = [{"row": {"hf": True, "fields": [{"str": "k"}, {"str": "xs"}, {"str": "m"}], "vs": [{"int": j}, {"list": [{"int": 3}, {"int": 2}, {"int": 5}]}, {"dict": {"ks": ["b", "a"], "vs": [flt(2.25), flt(1.5)]}}]}} for j in (5, 3, 2)]
+                    e = copy.deepcopy(a[::-1])
+                out.append({"kind": "assertseq", "actual": a, "expected": e, "calls": [{"opts": dict(o), "sel": sel} for o, sel in pat], "variant": "seq:" + shape, "origin": "sequences"})
+    return out
+
+
+def snapshot(xs: t.Any) -> t.Any:
+    return [from_py(x) for x in xs] if isinstance(xs, list) else {"other": type(xs).__name__}
+
+
+def verdict_of(I: dict, fn: t.Callable[[], t.Any]) -> str:
+    try:
+        fn()
+        return "accept"
+    except I["reject"]:
+        return "reject"
+    except I["refuse"]:
+        return "reject"  # the package's own exception for unusable arguments
+    except Exception as ex:  # noqa
+        return "error:" + type(ex).__name__
+
+
+def run_seq(which: str, c: dict) -> dict:
+    I = impls()[which]
+    lists = {"a": [to_py(r, I["Row"]) for r in c["actual"]], "e": [to_py(r, I["Row"]) for r in c["expected"]]}
+    verdicts, states = [], []
+    for call in c["calls"]:
+        x, y = lists[call["sel"][0]], lists[call["sel"][1]]
+        verdicts.append(verdict_of(I, lambda: I["adf"](x, y, **call["opts"])))
+        states.append([snapshot(lists["a"]), snapshot(lists["e"])])
+    return {"verdicts": verdicts, "states": states}
+
+
+# ---- None / list / DataFrame arguments ---------------------------------------------------------------
+
+
+class _Frame:
+    """what assertDataFrameEqual uses of a DataFrame: `.schema`, `.collect()` (a fresh list each time), `.isStreaming`
+    (pyspark only).  pyspark's helper, on its no-pandas path, makes no isinstance check, so the SAME stand-in goes
+    through both implementations."""
+
+    isStreaming = False
+
+    def __init__(self, schema: t.Any, rows: t.List[t.Any]):
+        self.schema = schema
+        self._rows = rows
+        self.collected = 0
+
+    def collect(self) -> t.List[t.Any]:
+        self.collected += 1
+        return list(self._rows)
+
+
+def arg_to_py(a: t.Any, I: dict) -> t.Any:
+    if a is None:
+        return None
+    if "rows" in a:
+        return [to_py(r, I["Row"]) for r in a["rows"]]
+    return _Frame(dtype_to_py(a["frame"]["schema"], I["types"]), [to_py(r, I["Row"]) for r in a["frame"]["rows"]])
+
+
+def arg_rows(a: t.Any) -> t.List[t.Any]:
+    return [] if a is None else a["rows"] if "rows" in a else a["frame"]["rows"]
+
+
+def run_args(which: str, c: dict) -> str:
+    I = impls()[which]
+    a, e = arg_to_py(c["actual"], I), arg_to_py(c["expected"], I)
+    return verdict_of(I, lambda: I["adf"](a, e, **c["opts"]))
+
+
+def args_cases(rng: random.Random, thorough: bool) -> t.List[dict]:
+    out: t.List[dict] = []
+    for _ in range(3 if thorough else 1):
+        rows = [r for r in gen_rows(rng, False) if r is not None][:3]
+        s = gen_struct(rng, 2)
+        schemas = [("equal", s)] + [mutate_schema3(rng, s)[::2] for _ in range(4)]
+        row_variants = [("equal", copy.deepcopy(rows)), ("permuted", copy.deepcopy(rows[::-1])), ("dropped", copy.deepcopy(rows[:-1])), ("perturbed", variant(rng, rows, "outside_tol", False))]
+        for opts in ({}, {"checkRowOrder": True}):
+            for ak in ("none", "rows", "frame"):
+                for ek in ("none", "rows", "frame"):
+                    for sk, s2 in schemas if (ak == "frame" or ek == "frame") else schemas[:1]:
+                        for rk, rows2 in row_variants if "none" not in (ak, ek) else row_variants[:1]:
+                            mk = lambda kind, rws, sch: None if kind == "none" else {"rows": rws} if kind == "rows" else {"frame": {"schema": sch, "rows": rws}}  # noqa: E731
+                            out.append({"kind": "assertargs", "actual": mk(ak, rows, s), "expected": mk(ek, rows2, s2), "opts": dict(opts), "variant": f"args:{ak}/{ek}/{sk}/{rk}", "origin": "arguments"})
+    return out
+
+
 # ---- schemas ---------------------------------------------------------------------------------------
 
-ATOMS = ["IntegerType", "LongType", "StringType", "DoubleType", "BooleanType", "DateType"]
+ATOMS = ["IntegerType", "LongType", "StringType", "DoubleType", "BooleanType", "DateType", "FloatType", "ShortType", "TimestampType", "TimestampNTZType", "BinaryType"]
+# types with parameters: same typeName() whatever the parameters are (what the helper compares)
+PARAM_ATOMS = [("DecimalType", [10, 2]), ("DecimalType", [12, 3]), ("DecimalType", [10, 0]), ("VarcharType", [5]), ("VarcharType", [20]), ("CharType", [5])]
+
+
+def gen_atom(rng: random.Random) -> dict:
+    if rng.random() < 0.2:
+        n, args = rng.choice(PARAM_ATOMS)
+        return {"atomic": n, "args": list(args)}
+    return {"atomic": rng.choice(ATOMS)}
 
 
 def gen_dtype(rng: random.Random, depth: int) -> dict:
     r = rng.random()
     if depth <= 0 or r < 0.6:
-        return {"atomic": rng.choice(ATOMS)}
+        return gen_atom(rng)
     if r < 0.75:
         return {"array": {"elem": gen_dtype(rng, depth - 1), "null": rng.random() < 0.5}}
     if r < 0.85:
@@ -633,7 +998,7 @@ def gen_struct(rng: random.Random, depth: int) -> dict:
 
 def dtype_to_py(d: dict, T: t.Any) -> t.Any:
     if "atomic" in d:
-        return getattr(T, d["atomic"])()
+        return getattr(T, d["atomic"])(*d.get("args", []))
     if "array" in d:
         return T.ArrayType(dtype_to_py(d["array"]["elem"], T), d["array"]["null"])
     if "map" in d:
@@ -644,7 +1009,7 @@ def dtype_to_py(d: dict, T: t.Any) -> t.Any:
 def dtype_to_lean(d: dict, T: t.Any) -> dict:
     """atomic names are sent as typeName() strings"""
     if "atomic" in d:
-        return {"atomic": getattr(T, d["atomic"])().typeName()}
+        return {"atomic": getattr(T, d["atomic"])(*d.get("args", [])).typeName()}
     if "array" in d:
         return {"array": {"elem": dtype_to_lean(d["array"]["elem"], T), "null": d["array"]["null"]}}
     if "map" in d:
@@ -666,7 +1031,7 @@ def dtype_paths(d: dict, path: t.Tuple = ()) -> t.List[t.Tuple]:
 
 def mutate_schema(rng: random.Random, s: dict) -> t.Tuple[str, dict]:
     s = copy.deepcopy(s)
-    kind = rng.choice(["equal", "nullable", "rename", "retype", "drop", "add", "deep"])
+    kind = rng.choice(["equal", "nullable", "rename", "rename_case", "retype", "reparam", "drop", "add", "deep", "reorder"])
     fields = s["struct"]
     if kind == "equal" or (not fields and kind not in ("add",)):
         return "equal", s
@@ -687,9 +1052,24 @@ def mutate_schema(rng: random.Random, s: dict) -> t.Tuple[str, dict]:
         return kind, s
     if kind == "rename":
         rng.choice(fields)["name"] += "_"
+    elif kind == "rename_case":
+        f = rng.choice(fields)
+        f["name"] = f["name"].swapcase()
+    elif kind == "reorder":
+        fields.reverse()
+    elif kind == "reparam":
+        # the same type with other parameters (decimal(10,2) -> decimal(12,3)): only the type NAME is compared
+        f = rng.choice(fields)
+        n, args = rng.choice(PARAM_ATOMS)
+        f["type"] = {"atomic": n, "args": list(args)}
+        if rng.random() < 0.7:
+            other = rng.choice([a for m, a in PARAM_ATOMS if m == n and a != args] or [args])
+            s0 = copy.deepcopy(s)
+            f["type"] = {"atomic": n, "args": list(other)}
+            return kind, s0, s  # type: ignore
     elif kind == "retype":
         f = rng.choice(fields)
-        f["type"] = {"atomic": rng.choice(ATOMS)}
+        f["type"] = gen_atom(rng)
     elif kind == "drop":
         fields.pop(rng.randrange(len(fields)))
     elif kind == "add":
@@ -704,7 +1084,7 @@ def mutate_schema(rng: random.Random, s: dict) -> t.Tuple[str, dict]:
             for step in p[:-1]:
                 d = d["array"]["elem"] if step == "elem" else d["map"]["value"] if step == "value" else d["struct"][step]["type"]
             last = p[-1]
-            new = {"atomic": rng.choice(ATOMS)}
+            new = gen_atom(rng)
             if last == "elem":
                 d["array"]["elem"] = new
             elif last == "value":
@@ -714,15 +1094,36 @@ def mutate_schema(rng: random.Random, s: dict) -> t.Tuple[str, dict]:
     return kind, s
 
 
+def mutate_schema3(rng: random.Random, s: dict) -> t.Tuple[str, dict, dict]:
+    """(variant, actual, expected): most variants keep `s` as the actual schema; `reparam` may rewrite both sides"""
+    r = mutate_schema(rng, s)
+    return (r[0], s, r[1]) if len(r) == 2 else r  # type: ignore
+
+
+def schema_snapshot(d: t.Any) -> t.Any:
+    """every attribute of a schema object that carries meaning (the reprs of sqlframe's types leave the flags out)"""
+    n = type(d).__name__
+    if n == "StructType":
+        return ["struct", [[f.name, schema_snapshot(f.dataType), f.nullable] for f in d.fields]]
+    if n == "ArrayType":
+        return ["array", schema_snapshot(d.elementType), d.containsNull]
+    if n == "MapType":
+        return ["map", schema_snapshot(d.keyType), schema_snapshot(d.valueType), d.valueContainsNull]
+    return n
+
+
 def run_schema(which: str, a: dict, e: dict) -> str:
     I = impls()[which]
+    sa, se = dtype_to_py(a, I["types"]), dtype_to_py(e, I["types"])
+    before = [schema_snapshot(sa), schema_snapshot(se)]
     try:
-        I["ase"](dtype_to_py(a, I["types"]), dtype_to_py(e, I["types"]))
-        return "accept"
+        I["ase"](sa, se)
+        v = "accept"
     except I["reject"]:
-        return "reject"
+        v = "reject"
     except Exception as ex:  # noqa
-        return "error:" + type(ex).__name__
+        v = "error:" + type(ex).__name__
+    return v if [schema_snapshot(sa), schema_snapshot(se)] == before else v + "+arguments-changed"
 
 
 # ------------------------------------------------------------------------------------------------
@@ -740,7 +1141,7 @@ def cases_for(ctx: Ctx) -> t.List[dict]:
                 c = json.load(open(os.path.join(corpus_dir, fn)))
                 c["origin"] = "corpus:" + fn
                 cases.append(c)
-    n_row, n_assert, n_schema = (6000, 4000, 2500) if ctx.thorough else (900, 700, 400)
+    n_row, n_assert, n_schema = (8000, 5000, 2500) if ctx.thorough else (2400, 1500, 500)
     for i in range(n_row):
         allow_dec = i % 5 == 0
         c = gen_ctor(rng, allow_dec)
@@ -766,8 +1167,11 @@ def cases_for(ctx: Ctx) -> t.List[dict]:
         cases.append({"kind": "assert", "actual": rows, "expected": exp, "opts": opts, "variant": kind, "origin": "random"})
     for _ in range(n_schema):
         s = gen_struct(rng, 2)
-        kind, m = mutate_schema(rng, s)
+        kind, s, m = mutate_schema3(rng, s)
         cases.append({"kind": "schema", "a": s, "e": m, "variant": kind, "origin": "random"})
+    cases += edit_cases(rng, ctx.thorough)
+    cases += seq_cases(rng, ctx.thorough)
+    cases += args_cases(rng, ctx.thorough)
     return cases
 
 
@@ -786,6 +1190,36 @@ def lean_case(i: int, c: dict, defaults: dict) -> dict:
             "close": close_table(c["actual"], c["expected"], c["opts"], defaults),
         }
     T = impls()["sf"]["types"]
+    if c["kind"] == "assertseq":
+        return {
+            "case": i,
+            "kind": "assertseq",
+            "actual": c["actual"],
+            "expected": c["expected"],
+            "calls": [
+                {
+                    "order": bool(call["opts"].get("checkRowOrder", defaults["checkRowOrder"])),
+                    "sel": call["sel"],
+                    "close": close_table(c["actual"] + c["expected"], c["actual"] + c["expected"], call["opts"], defaults),
+                }
+                for call in c["calls"]
+            ],
+        }
+    if c["kind"] == "assertargs":
+
+        def arg(a: t.Any) -> t.Any:
+            if a is None or "rows" in a:
+                return a
+            return {"frame": {"schema": dtype_to_lean(a["frame"]["schema"], T), "rows": a["frame"]["rows"]}}
+
+        return {
+            "case": i,
+            "kind": "assertargs",
+            "actual": arg(c["actual"]),
+            "expected": arg(c["expected"]),
+            "order": bool(c["opts"].get("checkRowOrder", defaults["checkRowOrder"])),
+            "close": close_table(arg_rows(c["actual"]), arg_rows(c["expected"]), c["opts"], defaults),
+        }
     return {"case": i, "kind": "schema", "a": dtype_to_lean(c["a"], T), "e": dtype_to_lean(c["e"], T)}
 
 
@@ -806,7 +1240,9 @@ def evaluate(cases: t.List[dict], with_model: bool = True) -> t.List[dict]:
     res = []
     for c, o in zip(cases, outs):
         if o is not None and c["kind"] == "row" and "recall" in c["ctor"]:
-            o = None  # calling a Row object that already has fields is outside the Lean transcription (direct differential only)
+            # calling a Row object that already has fields makes a row whose `__fields__` IS that Row object (`in` then
+            # asks the inner row's names): outside the Lean transcription, covered by the direct differential only
+            o = None
         if o is not None and "err" in o:
             raise RuntimeError(f"driver rejected a case: {o} {json.dumps(c)[:300]}")
         r: t.Dict[str, t.Any] = {"case": c}
@@ -818,6 +1254,21 @@ def evaluate(cases: t.List[dict], with_model: bool = True) -> t.List[dict]:
             r.update(sf=sf, ps=ps, spec_ok=abs_outs(sf) == abs_outs(psf), intended_diff=dec_top and abs_outs(sf) != abs_outs(ps))
             if o is not None:
                 r["model_ok"] = (o["sf"] == sf) and (o["ps"] == ps)
+                r["model"] = {"sf": o["sf"], "ps": o["ps"]}
+        elif c["kind"] == "assertseq":
+            sf, ps = run_seq("sf", c), run_seq("ps", c)
+            r.update(sf=sf, ps=ps, spec_ok=sf == ps, intended_diff=False)
+            if o is not None:
+                def seq_ok(m: dict, real: dict) -> bool:
+                    return [("accept" if v else "reject") for v in m["verdicts"]] == real["verdicts"] and [m["a"], m["e"]] == real["states"][-1]
+
+                r["model_ok"] = seq_ok(o["sf"], sf) and seq_ok(o["ps"], ps)
+                r["model"] = {"sf": o["sf"], "ps": o["ps"]}
+        elif c["kind"] == "assertargs":
+            sf, ps = run_args("sf", c), run_args("ps", c)
+            r.update(sf=sf, ps=ps, spec_ok=sf == ps, intended_diff=False)
+            if o is not None:
+                r["model_ok"] = (o["sf"] == (sf == "accept")) and (o["ps"] == (ps == "accept"))
                 r["model"] = {"sf": o["sf"], "ps": o["ps"]}
         elif c["kind"] == "assert":
             sf = run_assert("sf", c["actual"], c["expected"], c["opts"])
@@ -843,8 +1294,16 @@ def evaluate(cases: t.List[dict], with_model: bool = True) -> t.List[dict]:
 def shrink(c: dict) -> dict:
     """greedy: fewer ops / fewer rows / simpler option set while sqlframe still differs from pyspark"""
 
+    def verdicts_differ(x: dict) -> bool:
+        r = evaluate([x], with_model=False)[0]
+        return x["kind"] == "assertseq" and r["sf"]["verdicts"] != r["ps"]["verdicts"]
+
+    # a call sequence whose VERDICTS differ is shrunk to a smaller one whose verdicts still differ (not merely to one
+    # whose lists were changed)
+    keep_verdict = verdicts_differ(c)
+
     def bad(x: dict) -> bool:
-        return not evaluate([x], with_model=False)[0]["spec_ok"]
+        return verdicts_differ(x) if keep_verdict else not evaluate([x], with_model=False)[0]["spec_ok"]
 
     best = c
     changed = True
@@ -853,9 +1312,42 @@ def shrink(c: dict) -> dict:
         cands: t.List[dict] = []
         if best["kind"] == "row":
             cands = [dict(best, ops=best["ops"][:i] + best["ops"][i + 1 :]) for i in range(len(best["ops"]))]
+            ck = next(iter(best["ctor"]))
+            cc = best["ctor"][ck]
+            if ck in ("kwargs", "factory") and len(cc["names"]) == len(cc["vals"]):
+                # one field fewer; a nested value replaced by a scalar
+                for i in range(len(cc["names"])):
+                    cands.append(dict(best, ctor={ck: dict(cc, names=cc["names"][:i] + cc["names"][i + 1 :], vals=cc["vals"][:i] + cc["vals"][i + 1 :])}))
+            if ck in ("kwargs", "factory", "positional"):
+                for i, v in enumerate(cc["vals"]):
+                    if isinstance(v, dict) and node_kind(v) in ("list", "dict", "row"):
+                        cands.append(dict(best, ctor={ck: dict(cc, vals=cc["vals"][:i] + [{"int": 2}] + cc["vals"][i + 1 :])}))
         elif best["kind"] == "assert":
+            # a row that occurs on both sides (same position, or the same row anywhere) dropped from both
+            for i in range(min(len(best["actual"]), len(best["expected"]))):
+                cands.append(dict(best, actual=best["actual"][:i] + best["actual"][i + 1 :], expected=best["expected"][:i] + best["expected"][i + 1 :]))
+            for i, ra in enumerate(best["actual"]):
+                for j, re_ in enumerate(best["expected"]):
+                    if ra == re_ and i != j:
+                        cands.append(dict(best, actual=best["actual"][:i] + best["actual"][i + 1 :], expected=best["expected"][:j] + best["expected"][j + 1 :]))
             for key in ("actual", "expected"):
                 cands += [dict(best, **{key: best[key][:i] + best[key][i + 1 :]}) for i in range(len(best[key]))]
+            if best["opts"]:
+                cands.append(dict(best, opts={}))
+            cands += shrink_values(best)
+        elif best["kind"] == "assertseq":
+            cands = [dict(best, calls=best["calls"][:i] + best["calls"][i + 1 :]) for i in range(len(best["calls"])) if len(best["calls"]) > 1]
+            for key in ("actual", "expected"):
+                cands += [dict(best, **{key: best[key][:i] + best[key][i + 1 :]}) for i in range(len(best[key]))]
+            cands += [dict(best, calls=best["calls"][:i] + [dict(best["calls"][i], opts={})] + best["calls"][i + 1 :]) for i in range(len(best["calls"])) if best["calls"][i]["opts"]]
+        elif best["kind"] == "assertargs":
+            for key in ("actual", "expected"):
+                a = best[key]
+                if a is not None:
+                    rows = arg_rows(a)
+                    for i in range(len(rows)):
+                        rs = rows[:i] + rows[i + 1 :]
+                        cands.append(dict(best, **{key: {"rows": rs} if "rows" in a else {"frame": dict(a["frame"], rows=rs)}}))
             if best["opts"]:
                 cands.append(dict(best, opts={}))
         else:
@@ -868,11 +1360,47 @@ def shrink(c: dict) -> dict:
     return best
 
 
+def shrink_values(c: dict) -> t.List[dict]:
+    """smaller row pairs: the same field dropped from the i-th row of both lists; a nested container replaced, on
+    both sides at once, by one of its own elements"""
+    out: t.List[dict] = []
+    a, e = c["actual"], c["expected"]
+    for i in range(min(len(a), len(e))):
+        ra, re_ = a[i], e[i]
+        if not (ra and re_ and "row" in ra and "row" in re_):
+            continue
+        na, ne = len(ra["row"]["vs"]), len(re_["row"]["vs"])
+        if na == ne and na > 1 and ra["row"]["hf"] and re_["row"]["hf"]:
+            for j in range(na):
+                def cut(r: dict) -> dict:
+                    return {"row": {"hf": True, "fields": r["row"]["fields"][:j] + r["row"]["fields"][j + 1 :], "vs": r["row"]["vs"][:j] + r["row"]["vs"][j + 1 :]}}
+
+                out.append(dict(c, actual=a[:i] + [cut(ra)] + a[i + 1 :], expected=e[:i] + [cut(re_)] + e[i + 1 :]))
+        if na == ne:
+            for j in range(na):
+                va, ve = ra["row"]["vs"][j], re_["row"]["vs"][j]
+                ka, ke = node_kind(va), node_kind(ve)
+                if ka == ke and ka in ("list", "dict", "row"):
+                    xa = va["list"] if ka == "list" else va[ka]["vs"]
+                    xe = ve["list"] if ka == "list" else ve[ka]["vs"]
+                    for k in range(min(len(xa), len(xe))):
+                        def put(r: dict, x: t.Any) -> dict:
+                            return {"row": dict(r["row"], vs=r["row"]["vs"][:j] + [x] + r["row"]["vs"][j + 1 :])}
+
+                        out.append(dict(c, actual=a[:i] + [put(ra, xa[k])] + a[i + 1 :], expected=e[:i] + [put(re_, xe[k])] + e[i + 1 :]))
+    return out
+
+
 def show_case(c: dict) -> str:
     if c["kind"] == "row":
         return f"Row script: construct {json.dumps(c['ctor'])[:300]} then {json.dumps(c['ops'])[:300]}"
     if c["kind"] == "assert":
         return f"assertDataFrameEqual(actual={json.dumps(c['actual'])[:300]}, expected={json.dumps(c['expected'])[:300]}, **{c['opts']})"
+    if c["kind"] == "assertseq":
+        calls = "; ".join(f"assertDataFrameEqual({call['sel'][0]}, {call['sel'][1]}, **{call['opts']})" for call in c["calls"])
+        return f"a = {json.dumps(c['actual'])[:300]}; e = {json.dumps(c['expected'])[:300]}; then on these same list objects: {calls}"
+    if c["kind"] == "assertargs":
+        return f"assertDataFrameEqual(actual={json.dumps(c['actual'])[:300]}, expected={json.dumps(c['expected'])[:300]}, **{c['opts']})  (null = None, frame = an object with .schema and .collect())"
     return f"assertSchemaEqual({json.dumps(c['a'])[:300]}, {json.dumps(c['e'])[:300]})"
 
 
@@ -923,12 +1451,103 @@ def exercise(ctx: Ctx) -> t.Dict[str, t.Any]:
     want = {"gt": [False, False, True], "ge": [False, True, True], "lt": [True, False, False], "le": [True, True, False], "ne": [True, False, True], "eq": [False, True, False]}[ext["callGuard"]]
     if obs != want:
         ctx.broken.append(f"exercise: Row.__call__ guard observed {obs} but Gen says {ext['callGuard']}")
+    exercise_accessors(ctx, ext)
+    exercise_helpers(ctx, ext)
     notes["same_methods"] = ext["sameMethods"]
     notes["diff_methods"] = ext["diffMethods"]
     notes["same_funcs"] = ext["sameFuncs"]
     notes["diff_funcs"] = ext["diffFuncs"]
     notes["extra_methods"] = ext["extraMethods"]
     return notes
+
+
+EXC_NAME = {"attributeError": "AttributeError", "keyError": "KeyError", "indexError": "IndexError", "valueError": "ValueError", "typeError": "TypeError", "runtimeError": "RuntimeError", "domainError": "RowError"}
+
+
+def _raises(fn: t.Callable[[], t.Any]) -> str:
+    try:
+        fn()
+        return "no exception"
+    except Exception as e:  # noqa
+        return type(e).__name__
+
+
+def exercise_accessors(ctx: Ctx, ext: dict) -> None:
+    """every regenerated decision of Row, observed on the running class"""
+    Row = impls()["sf"]["Row"]
+
+    def differ(what: str, gen: t.Any, obs: t.Any) -> None:
+        if gen != obs:
+            ctx.broken.append(f"exercise: Gen.RowCompat {what} = {gen!r} but the running code shows {obs!r}")
+
+    # the prefix __getattr__ refuses: a row whose fields are named by every prefix length of interest
+    probes = ["p", "_p", "__p", "___p", "p_", "_", "__"]
+    r = Row(**{n: i for i, n in enumerate(probes)})
+    refused = [n for n in probes if _raises(lambda n=n: getattr(r, n)) != "no exception"]
+    differ("getattrGuardPrefix (names refused among " + repr(probes) + ")", [n for n in probes if n.startswith(ext["getattrGuardPrefix"])], refused)
+    differ("getattrGuardRaises", EXC_NAME[ext["getattrGuardRaises"]], _raises(lambda: getattr(r, ext["getattrGuardPrefix"] + "q")))
+    differ("getattrNoField", EXC_NAME[ext["getattrNoField"]], _raises(lambda: getattr(r, "q")))
+    differ("getitemNoField", EXC_NAME[ext["getitemNoField"]], _raises(lambda: r["q"]))
+    short = Row("a", "b")(1)  # fewer values than fields
+    differ("getattrShort", EXC_NAME[ext["getattrShort"]], _raises(lambda: short.b))
+    differ("getitemShort", EXC_NAME[ext["getitemShort"]], _raises(lambda: short["b"]))
+    differ("getitemInt", ext["getitemInt"], _raises(lambda: r[0]) == "no exception")
+    differ("getitemSlice", ext["getitemSlice"], _raises(lambda: r[0:1]) == "no exception")
+    # __setattr__: which names are let through
+    names = ["__fields__", "x", "_x", "__x", "__fields", "fields__"]
+    let = []
+    for n in names:
+        q = Row(a=1)
+        if _raises(lambda: setattr(q, n, ["a"])) == "no exception":
+            let.append(n)
+    differ("setattrAllowed", [n for n in names if n == ext["setattrAllowed"]], let)
+    differ("setattrRaises", EXC_NAME[ext["setattrRaises"]], _raises(lambda: setattr(Row(a=1), "x", 1)))
+    # asDict
+    nested = Row(r=Row(a=1), l=[Row(a=1)], d={"k": Row(a=1)})
+    differ("asDictRecursiveDefault", ext["asDictRecursiveDefault"], isinstance(nested.asDict()["r"], dict))
+    full = nested.asDict(True)
+    differ("convRow", ext["convRow"], isinstance(full["r"], dict))
+    differ("convList", ext["convList"], isinstance(full["l"][0], dict))
+    differ("convDict", ext["convDict"], isinstance(full["d"]["k"], dict))
+    differ("asDictNoFields", EXC_NAME[ext["asDictNoFields"]], _raises(lambda: Row("a").asDict()))
+    differ("rowBases", ext["rowBases"], [b.__name__ for b in Row.__bases__])
+    ps_dunders = set(vars(impls()["ps"]["Row"]))
+    differ("extraDunders / classAssigns", sorted(set(ext["extraDunders"]) | set(ext["classAssigns"])), sorted(n for n in vars(Row) if n not in ps_dunders and n not in ext["extraMethods"] and n not in ("__annotations__", "__firstlineno__", "__static_attributes__")))
+
+
+def exercise_helpers(ctx: Ctx, ext: dict) -> None:
+    """the regenerated decisions of assertDataFrameEqual, observed by calling it"""
+    I = impls()["sf"]
+    Row, adf, T = I["Row"], I["adf"], I["types"]
+
+    def ok(fn: t.Callable[[], t.Any]) -> bool:
+        return verdict_of(I, fn) == "accept"
+
+    def differ(what: str, gen: t.Any, obs: t.Any) -> None:
+        if gen != obs:
+            ctx.broken.append(f"exercise: Gen.RowCompat {what} = {gen!r} but the running code shows {obs!r}")
+
+    ab, ba, ba_swapped = {"a": 1.0, "b": 2.0}, {"b": 2.0, "a": 1.0}, {"b": 1.0, "a": 2.0}
+    by_key = ok(lambda: adf([Row(m=ab)], [Row(m=ba)])) and not ok(lambda: adf([Row(m=ab)], [Row(m=ba_swapped)]))
+    by_pos = not ok(lambda: adf([Row(m=ab)], [Row(m=ba)])) and ok(lambda: adf([Row(m=ab)], [Row(m=ba_swapped)]))
+    differ("dictPairing", ext["dictPairing"], "byKey" if by_key else "byPosition" if by_pos else "neither")
+    differ("dictKeysChecked or dictLenChecked", ext["dictKeysChecked"] or ext["dictLenChecked"], not ok(lambda: adf([Row(m={"a": 1.0})], [Row(m={"a": 1.0, "b": 2.0})])))
+    differ("listLenChecked", ext["listLenChecked"], not ok(lambda: adf([Row(l=[1])], [Row(l=[1, 2])])))
+    differ("rowZipTruncates", ext["rowZipTruncates"], ok(lambda: adf([Row(r=Row(a=1))], [Row(r=Row(a=1, b=2))])))
+    differ("zipLongest", ext["zipLongest"], not ok(lambda: adf([Row(a=1)], [Row(a=1), Row(a=2)], checkRowOrder=True)))
+    # the sort of each argument: is it sorted at all, and is the CALLER's list touched
+    for which, key in (("actual", "sortActual"), ("expected", "sortExpected")):
+        lst, other = [Row(a=2), Row(a=1)], [Row(a=1), Row(a=2)]
+        args = (lst, other) if which == "actual" else (other, lst)
+        accepted = ok(lambda: adf(*args))
+        touched = [tuple(x) for x in lst] != [(2,), (1,)]
+        differ(key, ext[key], "inPlace" if touched else "copy" if accepted else "none")
+    differ("noneBothAccepts", ext["noneBothAccepts"], ok(lambda: adf(None, None)))
+    s1 = T.StructType([T.StructField("a", T.IntegerType(), True)])
+    s2 = T.StructType([T.StructField("a", T.StringType(), True)])
+    both = not ok(lambda: adf(_Frame(s1, [Row(a=1)]), _Frame(s2, [Row(a=1)])))
+    exp_only = not ok(lambda: adf([Row(a=1)], _Frame(s2, [Row(a=1)])))
+    differ("schemaWhen", ext["schemaWhen"], "expectedFrame" if exp_only else "bothFrames" if both else "never")
 
 
 # ------------------------------------------------------------------------------------------------
@@ -955,7 +1574,13 @@ def run(ctx: Ctx) -> None:
 
     reported = 0
     seen = set()
+    # one failing input per kind of case first (a Row script, a single call, a call sequence, an argument pair, a schema
+    # pair show different faces of one defect), then the rest
+    firsts: t.Dict[str, dict] = {}
     for r in spec_bad:
+        firsts.setdefault(r["case"]["kind"], r)
+    ordered = list(firsts.values()) + [r for r in spec_bad if all(r is not f for f in firsts.values())]
+    for r in ordered:
         if reported >= 3:
             break
         c = shrink({k: v for k, v in r["case"].items() if k != "origin"})
@@ -1007,15 +1632,33 @@ def run(ctx: Ctx) -> None:
             if len(r["sf"]) > 1 and any("err" not in o for o in r["sf"][1:]):
                 nontrivial.add(vlib.digest([c["ctor"], c["ops"]]))
         else:
-            verdicts[c["kind"] + ":" + str(r["sf"])] = verdicts.get(c["kind"] + ":" + str(r["sf"]), 0) + 1
-            if (c["kind"] == "assert" and (c["actual"] or c["expected"])) or (c["kind"] == "schema" and (c["a"]["struct"] or c["e"]["struct"])):
+            vs = r["sf"]["verdicts"] if c["kind"] == "assertseq" else [r["sf"]]
+            for v in vs:
+                verdicts[c["kind"] + ":" + str(v)] = verdicts.get(c["kind"] + ":" + str(v), 0) + 1
+            if (c["kind"] == "schema" and (c["a"]["struct"] or c["e"]["struct"])) or (c["kind"] != "schema" and (c["actual"] or c["expected"])):
                 nontrivial.add(vlib.digest({k: v for k, v in c.items() if k != "origin"}))
+    op_hist: t.Dict[str, int] = {}
+    name_shapes: t.Dict[str, int] = {}
+    for r in res:
+        c = r["case"]
+        if c["kind"] == "row":
+            for op in c["ops"]:
+                k = op if isinstance(op, str) else next(iter(op))
+                op_hist[k] = op_hist.get(k, 0) + 1
+            for n in ctor_names(c["ctor"]):
+                shape = "dunder" if n.startswith("__") else "underscore" if n.startswith("_") else "method-name" if n in ("count", "index") else "plain"
+                name_shapes[shape] = name_shapes.get(shape, 0) + 1
     ctx.cov.update(
         {
             "evaluations": len(res),
             "distinct_nontrivial": len(nontrivial),
             "rule": "corpus; random Row scripts (kwargs / positional / args+kwargs / Row-class factory with duplicate names and wrong arity / calling a row; "
-            "nested Rows, lists, dicts, None, Decimal; 3-8 queries each); random row lists with one of 15 near-miss variants (incl. differences between rtol*|actual| and rtol*|expected| at large rtol) x option settings; random schema pairs with 7 variants; "
+            "field names of every shape: plain, _1/_c0/_, __x, __x__, trailing underscore, names of tuple methods, a blank inside, non-ASCII; "
+            "nested Rows, lists, dicts, None, Decimal; 3-8 queries each out of 19 kinds incl. slices, hash, !=, <=, del, asDict() default, assignment to __fields__; the row is read back after the queries); "
+            "random row lists with one of 15 near-miss variants (incl. differences between rtol*|actual| and rtol*|expected| at large rtol) x option settings; "
+            "EVERY single-site structural edit (by node kind: map insertion order / values swapped between keys / key set, list order / length, Row names / positions / arity, float inside / outside tolerance, int<->float, None) at EVERY node of rows nesting every container in every other; "
+            "sequences of 2-4 calls on the SAME list objects (roles swapped, one list as both arguments), lists read back after each call; None / list / DataFrame-like argument pairs x schema variants x row variants; "
+            "random schema pairs with 7 variants (arguments read back after the call); "
             "non-trivial = distinct Row scripts with at least one successful query, distinct non-empty list / schema pairs",
             "traces_validated_against_impl": sum(1 for r in res if r["model_ok"]),
             "sqlframe_vs_pyspark_agree": sum(1 for r in res if r["spec_ok"]),
@@ -1024,13 +1667,20 @@ def run(ctx: Ctx) -> None:
             "variant_histogram": variants,
             "verdict_histogram": verdicts,
             "row_error_histogram": errs,
+            "row_op_histogram": op_hist,
+            "field_name_shapes": name_shapes,
+            "origin_histogram": {o: sum(1 for r in res if r["case"].get("origin") == o) for o in sorted({r["case"].get("origin", "") for r in res})},
             "samples": [{"program": show_case(r["case"]), "sqlframe": r["sf"] if isinstance(r["sf"], str) else r["sf"][:4]} for r in res[:: max(1, len(res) // 4)][:4]],
         }
     )
     ctx.assumptions += [
         "pyspark.testing.utils is loaded from its file with pyspark.pandas made unimportable (its own ImportError fallback), because the package does not import under numpy 2; DataFrame (JVM) arguments are not exercised, only lists of Rows and StructTypes",
         "float closeness is an abstract predicate in Lean; the driver is given the truth table computed by Python for the floats of each case",
-        "strings are drawn from an alphabet whose repr is the single-quoted string; field names do not collide with tuple/Row attribute names",
+        "strings are drawn from an alphabet whose repr is the single-quoted string; field names may collide with tuple methods (count, index: the class answers, modelled) but not with sqlframe's own extra property `_unique_field_names` nor with `__fields__`",
+        "DataFrame arguments of assertDataFrameEqual are stand-ins offering .schema / .collect() / .isStreaming (what the helpers use); the same stand-in goes through pyspark's helper, which on its no-pandas path makes no isinstance check",
+        "the colour probe of the helpers' error message (a shell call per rejected pair) is stubbed to 'no colour' in both packages; message texts are not compared",
+        "a call that raises the package's own exception for unusable arguments (None on one side) counts as a rejection, like PySpark's PySparkAssertionError",
+        "`row.__fields__ = names` is not generated on a row built positionally from Decimal values (H_fields_after_decimal: the documented Decimal->float conversion would then happen at pickling time, C19_cex_decimal_late)",
         "the packages' own exception classes are identified (RowError ~ PySparkValueError / PySparkTypeError); sqlframe's RowError is not a ValueError/TypeError subclass",
         "Decimal values in keyword / Row-class construction are converted to float by sqlframe (documented); the equivalence is stated for the floatified construction",
     ]
